@@ -144,6 +144,10 @@ def main(argv=None):
     reach_rep = {
         q: {"executed": len(e["hit_text"]), "executable": e["executable"]} for q, e in m["reach"].items()
     }
+    if os.environ.get("VERIF_DUMP_REACH"):
+        # developer aid (tools/unreached.sh): source text of the anchored lines no case executed
+        with open(os.environ["VERIF_DUMP_REACH"], "w") as f:
+            json.dump({q: sorted(e["all_text"] - e["hit_text"]) for q, e in m["reach"].items() if e["all_text"] - e["hit_text"]}, f, indent=1)
     landmarks = getattr(mod, "LANDMARKS", {})
     lm = core.landmark_hits({q: {"hit_text": e["hit_text"], "all_text": e["all_text"]} for q, e in m["reach"].items()}, landmarks)
     inconclusive = []
